@@ -366,6 +366,27 @@ func c16Run(e *core.Env) {
 		})
 		e.SetBound(fmt.Sprintf("journal_depth_alphabet%d", len(pl.alpha)), pl.n)
 	}
+	// position life histories (see positionChains)
+	chainN := core.Pick(e, 4, 6)
+	e.Note("position chains: 7 step kinds, <= %d steps on consecutive days, valuation in {CHF, USD}", chainN)
+	positionChains(e, chainN, func(seq []jr.Dir) {
+		for _, V := range []string{"CHF", "USD"} {
+			if !e.Take() {
+				continue
+			}
+			key, detail, out := c16One(drv, seq, V)
+			e.Count("evaluations")
+			if detail == "" {
+				e.Count("distinct_nontrivial")
+			}
+			e.Distinct(out.Stdout)
+			if key != "" {
+				cs := c16Case{cloneDirs(seq), V}
+				e.Violation(key, detail, cs, func() bool { k, _, _ := c16One(drv, cs.Body, cs.V); return k == key })
+			}
+		}
+	})
+	e.SetBound("position_chain_steps", chainN)
 }
 
 func c16Replay(e *core.Env, data json.RawMessage) (bool, string) {
@@ -381,7 +402,7 @@ func init() {
 	core.Register(&core.Check{
 		ID: "C16", Level: "model_checking", Run: c16Run, Replay: c16Replay,
 		QuickBudget: 100 * time.Second, ThoroughBudget: 14 * time.Minute,
-		Rule: "every accepted journal of <= N directives over the valued alphabet of C03 (positions in USD/AAPL/EUR, sale to zero, liability, income collision, six price declarations) plus close/late open/late booking, x valuation {CHF, USD}; the beancount output is read back line by line: every transaction sums to exactly zero in V, every posting account has an open on or before its first use and is not used after its close, entries are chronological, and the multiset of transactions equals the reference's valued transactions (bookings at booking-day prices + one adjustment per day and position whose price changed) within one 1e-8 truncation per step; non-trivial = runs that produce a ledger",
+		Rule:        "every accepted journal of <= N directives over the valued alphabet of C03 (positions in USD/AAPL/EUR, sale to zero, liability, income collision, six price declarations) plus close/late open/late booking, x valuation {CHF, USD}; the beancount output is read back line by line: every transaction sums to exactly zero in V, every posting account has an open on or before its first use and is not used after its close, entries are chronological, and the multiset of transactions equals the reference's valued transactions (bookings at booking-day prices + one adjustment per day and position whose price changed) within one 1e-8 truncation per step; non-trivial = runs that produce a ledger",
 		Assumptions: []string{"journals whose price graph offers several indirect chains with different values are skipped for the value comparison", "runs that fail on a missing price are outside the property (C03 checks the failure rule)"},
 	})
 }
